@@ -97,7 +97,8 @@ POW2_DIV = st.sampled_from([2, 4, -2, 0.5, -8, 1, -1, 0.25])
 FLOAT_DIV = st.one_of(st.sampled_from([3, -7, 0.3, 10, -0.7, 1.1]),
                       st.floats(min_value=0.1, max_value=20.0, allow_nan=False, allow_infinity=False),
                       st.floats(min_value=-20.0, max_value=-0.1, allow_nan=False, allow_infinity=False))
-_COEFS = {"int": gen.SMALL_INT_COEFS, "mixed": st.one_of(gen.SMALL_INT_COEFS, gen.INT_COEFS, gen.DYADIC_COEFS)}
+_COEFS = {"int": gen.SMALL_INT_COEFS, "mixed": st.one_of(gen.SMALL_INT_COEFS, gen.INT_COEFS, gen.DYADIC_COEFS),
+          "tiny": gen.TINY_COEFS, "huge": gen.HUGE_COEFS}
 _cache = {}
 
 
@@ -271,7 +272,7 @@ def _context(draw, rewrite=False):
     if rewrite:
         ctx = Ctx(spin, labels, kinds, "int", False, False, INT_SCALARS)
     else:
-        ctx = Ctx(spin, labels, kinds, draw(st.sampled_from(["int", "mixed", "mixed"])), True, True, SCALARS)
+        ctx = Ctx(spin, labels, kinds, draw(st.sampled_from(["int", "mixed", "mixed", "int", "mixed", "mixed", "tiny", "huge"])), True, True, SCALARS)
     return ctx, profile, budget
 
 
